@@ -27,8 +27,9 @@ PLAN = dict(
                     "machine for every construct (operators nested to any depth with effects in operands, xtor/call/ifc/print/exit "
                     "arguments, every arm of Cut::focus, mu/mu~ by value and by name, case/cocase, calls); composed: Prog::focus "
                     "reproduces every defined run of its input, prints in order, under cs_prog (chirality-consistent scoping) and "
-                    "absence of kind clashes (static guard sg_prog, or assumed for the run) - both implied by typing; the statement "
-                    "without them is refuted by an ill-typed witness.  Correspondence: the Gallina models of "
+                    "absence of kind clashes, guaranteed statically by static_ok = the Core type checker tc_prog (typing of machine "
+                    "states is preserved and excludes clashes) or a syntactic guard sg_prog, or assumed for the run; the statement "
+                    "without such hypotheses is refuted by an ill-typed witness.  Correspondence: the Gallina models of "
                     "Prog::uniquify and Prog::focus agree with the Rust code on every case (panic messages included); on the Rust "
                     "output the executable property (uniquified_check, unique_check, output reads as FsProg) is evaluated for every "
                     "input inside the precondition, and the observable behaviour (prints in order, exit value) of the input on the Core "
@@ -39,8 +40,8 @@ PLAN = dict(
             "semantic preservation and order of effects are CHECKED on every case (run_core on the input vs run_fs on the Rust "
             "output, two argument tuples per program, source fuel 20000 / target fuel 400000 transitions; cases whose source run "
             "is stuck or out of fuel give no verdict); proved for every program that is chirality-consistently scoped (cs_prog) and "
-            "free of kind clashes (sg_prog statically, or clash_free_prog on the run) - consequences of typing that are hypotheses "
-            "because the framework has no Core type system; the coverage of each case is reported (thm-* tags)",
+            "free of kind clashes (static_ok: typed by tc_prog or inside a guard sg_prog; or clash_free_prog on the run); "
+            "the coverage of each case is reported (tags thm-static / thm-run / thm-none, typed / untyped)",
             "the reference machine Sem/CoreSem.v (branch c02) fixes the evaluation order of unfocused arguments",
             "well-typedness enters only through the shape predicate focus_wf (no Literal/Op consumer, no xtor-xtor or op-destructor cut)",
         ],
